@@ -9,6 +9,7 @@ import FsVerif.Model.Node.Machine
 import FsVerif.Model.Node.Source
 import FsVerif.Proofs.MachineSel
 import FsVerif.Props.C09
+import FsVerif.Proofs.Pack
 namespace FsVerif.Props.C15
 open FsVerif
 
@@ -143,6 +144,28 @@ theorem machine_policy_put_goes_to_requested_edge (s : MacState) (i : Nat) (w : 
     (s.worker i w t a).2 = [.put e tok w.item, .awaitReq] := by
   unfold MacState.worker
   simp only [hpc, ht, Bool.not_true, Bool.false_eq_true, ↓reduceIte]
+
+/-! ### Combiner / Splitter, out-edge side per unit: under blocking FIRST_AVAILABLE the worker asks EVERY out-edge for space and waits for the
+first grant; under an index / ROUND_ROBIN / user policy it asks the selected out-edge only. -/
+
+theorem chk!_nextTok (s : PackState) (t : Nat) : (s.chk! t).nextTok = s.nextTok := by
+  obtain ⟨c, hc⟩ := PackState.chk!_eq s t; rw [hc]
+
+theorem pack_first_available_requests_every_out_edge (s : PackState) (i : Nat) (w : PWorker) (t : Nat) (u : Unit') (rest : List Unit') :
+    (s.startAny i w t u rest).2 = (List.range s.cfg.nout).map (fun j => Call.rp j (s.nextTok + j)) ++ [.awaitAny s.cfg.nout] := by
+  unfold PackState.startAny
+  simp only
+  have : (((s.chk! t).setW i (PackState.markW w u rest)).chk! t).nextTok = s.nextTok := by
+    rw [chk!_nextTok]; show (s.chk! t).nextTok = _; rw [chk!_nextTok]
+  rw [this]
+
+theorem pack_policy_requests_selected_edge (s : PackState) (i : Nat) (w : PWorker) (t : Nat) (u : Unit') (rest : List Unit') (r : PackState.Route) (j : Nat) :
+    (s.startTok i w t u rest r j).2 = [.rp j s.nextTok, .awaitTok] := by
+  unfold PackState.startTok
+  simp only
+  have : (((s.commit r).setW i (PackState.markW w u rest)).chk! t).nextTok = s.nextTok := by
+    rw [chk!_nextTok]; rfl
+  rw [this]
 
 /-- non-vacuity on the RECORDED run of Props/C09 (blocking machine, FIRST_AVAILABLE in): the recorded history [0, 0, 0] is the
     sequence of in-edges the three pulls used -/
